@@ -111,7 +111,6 @@ theorem toInt_oneB {c : Nat} (hc : 1 < c) : (1 : BitVec c).toInt = 1 := BitVec.t
 
 /-- ceilMultiple, signed T of any width w evaluated at width c ≥ w -/
 theorem ceilMultipleS_ok {w c : Nat} (hw : 1 < w) (hwc : w ≤ c) (s m : BitVec w) (hm : 0 < m.toInt)
-    (hneg : w < c ∨ s.toInt ≠ -(2 : Int) ^ (w - 1))
     (hrep : ∃ r, IsCeilMultiple s.toInt m.toInt r ∧ r < (2 : Int) ^ (w - 1)) :
     IsCeilMultiple s.toInt m.toInt (ceilMultipleS w c s m).toInt := by
   obtain ⟨r, hr, hrlt⟩ := hrep
@@ -157,15 +156,10 @@ theorem ceilMultipleS_ok {w c : Nat} (hw : 1 < w) (hwc : w ≤ c) (s m : BitVec 
     have hvr : s.toInt + (-s.toInt).tmod m.toInt = r := ceil_unique hv hr
     have h0 : 0 ≤ (-s.toInt).tmod m.toInt := Int.tmod_nonneg _ (by omega)
     have h1 : (-s.toInt).tmod m.toInt < m.toInt := Int.tmod_lt_of_pos _ hm
-    have hnegS : -s.toInt < (2 : Int) ^ (c - 1) := by
-      rcases hneg with h | h
-      · have := hPQ' h; have := two_pow_posI (w - 1); omega
-      · omega
-    have e1 : (-(sx c s)).toInt = -s.toInt := by
-      rw [toInt_neg_range hc _ (by rw [hS]; omega) (by rw [hS]; omega), hS]
-    have e2 : ((-(sx c s)).srem (sx c m)).toInt = (-s.toInt).tmod m.toInt := by rw [BitVec.toInt_srem, e1, hM]
-    have e3 : (sx c s + (-(sx c s)).srem (sx c m)).toInt = s.toInt + (-s.toInt).tmod m.toInt := by
-      rw [toInt_add_range hc _ _ (by rw [hS, e2]; omega) (by rw [hS, e2]; omega), hS, e2]
+    have e2 : ((sx c s).srem (sx c m)).toInt = s.toInt.tmod m.toInt := by rw [BitVec.toInt_srem, hS, hM]
+    have hneg_tmod : (-s.toInt).tmod m.toInt = -(s.toInt.tmod m.toInt) := Int.neg_tmod _ _
+    have e3 : (sx c s - (sx c s).srem (sx c m)).toInt = s.toInt + (-s.toInt).tmod m.toInt := by
+      rw [toInt_sub_range hc _ _ (by rw [hS, e2]; omega) (by rw [hS, e2]; omega), hS, e2]; omega
     rw [toInt_tr (by omega) hwc _ (by rw [e3]; omega) (by rw [e3]; omega), e3]
     exact hv
 
@@ -458,7 +452,7 @@ theorem isMultipleU_ok {w c : Nat} (hwc : w ≤ c) (s m : BitVec w) (_hm : 0 < m
 theorem ceilMultipleS_8 (s m : BitVec 8) (hm : 0 < m.toInt)
     (hrep : ∃ r, IsCeilMultiple s.toInt m.toInt r ∧ r < 128) :
     IsCeilMultiple s.toInt m.toInt (ceilMultipleS 8 32 s m).toInt :=
-  ceilMultipleS_ok (by decide) (by decide) s m hm (Or.inl (by decide)) (by simpa using hrep)
+  ceilMultipleS_ok (by decide) (by decide) s m hm (by simpa using hrep)
 theorem floorMultipleS_8 (s m : BitVec 8) (hm : 0 < m.toInt)
     (hrep : ∃ r, IsFloorMultiple s.toInt m.toInt r ∧ -128 ≤ r) :
     IsFloorMultiple s.toInt m.toInt (floorMultipleS 8 32 s m).toInt :=
@@ -493,7 +487,7 @@ example : isMultipleS 8 32 (-6) 3 = true ∧ isMultipleS 8 32 7 3 = false ∧ is
 theorem ceilMultipleS_16 (s m : BitVec 16) (hm : 0 < m.toInt)
     (hrep : ∃ r, IsCeilMultiple s.toInt m.toInt r ∧ r < 32768) :
     IsCeilMultiple s.toInt m.toInt (ceilMultipleS 16 32 s m).toInt :=
-  ceilMultipleS_ok (by decide) (by decide) s m hm (Or.inl (by decide)) (by simpa using hrep)
+  ceilMultipleS_ok (by decide) (by decide) s m hm (by simpa using hrep)
 theorem floorMultipleS_16 (s m : BitVec 16) (hm : 0 < m.toInt)
     (hrep : ∃ r, IsFloorMultiple s.toInt m.toInt r ∧ -32768 ≤ r) :
     IsFloorMultiple s.toInt m.toInt (floorMultipleS 16 32 s m).toInt :=
@@ -525,10 +519,10 @@ example : (roundMultipleS 16 32 7 4).toInt = 8 ∧ (roundMultipleS 16 32 5 4).to
 example : (ceilMultipleU 16 32 0 3).toNat = 0 ∧ (ceilMultipleU 16 32 7 3).toNat = 9 ∧ (floorMultipleU 16 32 7 3).toNat = 6 ∧ (roundMultipleU 16 32 7 3).toNat = 6 ∧ (roundMultipleU 16 32 8 3).toNat = 9 := by decide
 example : isMultipleS 16 32 (-6) 3 = true ∧ isMultipleS 16 32 7 3 = false ∧ isMultipleU 16 32 6 3 = true := by decide
 
-theorem ceilMultipleS_32 (s m : BitVec 32) (hm : 0 < m.toInt) (hmin : s.toInt ≠ -2147483648)
+theorem ceilMultipleS_32 (s m : BitVec 32) (hm : 0 < m.toInt)
     (hrep : ∃ r, IsCeilMultiple s.toInt m.toInt r ∧ r < 2147483648) :
     IsCeilMultiple s.toInt m.toInt (ceilMultipleS 32 32 s m).toInt :=
-  ceilMultipleS_ok (by decide) (by decide) s m hm (Or.inr (by simpa using hmin)) (by simpa using hrep)
+  ceilMultipleS_ok (by decide) (by decide) s m hm (by simpa using hrep)
 theorem floorMultipleS_32 (s m : BitVec 32) (hm : 0 < m.toInt)
     (hrep : ∃ r, IsFloorMultiple s.toInt m.toInt r ∧ -2147483648 ≤ r) :
     IsFloorMultiple s.toInt m.toInt (floorMultipleS 32 32 s m).toInt :=
@@ -560,10 +554,10 @@ example : (roundMultipleS 32 32 7 4).toInt = 8 ∧ (roundMultipleS 32 32 5 4).to
 example : (ceilMultipleU 32 32 0 3).toNat = 0 ∧ (ceilMultipleU 32 32 7 3).toNat = 9 ∧ (floorMultipleU 32 32 7 3).toNat = 6 ∧ (roundMultipleU 32 32 7 3).toNat = 6 ∧ (roundMultipleU 32 32 8 3).toNat = 9 := by decide
 example : isMultipleS 32 32 (-6) 3 = true ∧ isMultipleS 32 32 7 3 = false ∧ isMultipleU 32 32 6 3 = true := by decide
 
-theorem ceilMultipleS_64 (s m : BitVec 64) (hm : 0 < m.toInt) (hmin : s.toInt ≠ -9223372036854775808)
+theorem ceilMultipleS_64 (s m : BitVec 64) (hm : 0 < m.toInt)
     (hrep : ∃ r, IsCeilMultiple s.toInt m.toInt r ∧ r < 9223372036854775808) :
     IsCeilMultiple s.toInt m.toInt (ceilMultipleS 64 64 s m).toInt :=
-  ceilMultipleS_ok (by decide) (by decide) s m hm (Or.inr (by simpa using hmin)) (by simpa using hrep)
+  ceilMultipleS_ok (by decide) (by decide) s m hm (by simpa using hrep)
 theorem floorMultipleS_64 (s m : BitVec 64) (hm : 0 < m.toInt)
     (hrep : ∃ r, IsFloorMultiple s.toInt m.toInt r ∧ -9223372036854775808 ≤ r) :
     IsFloorMultiple s.toInt m.toInt (floorMultipleS 64 64 s m).toInt :=
